@@ -785,6 +785,9 @@ def truth_of(v):
         return v.const_value() != 0
     if sym_name(v) in ("True", "False", "None"):
         return sym_name(v) == "True"
+    if sym_name(v) is not None and sym_name(v)[:1] in "'\"":
+        x = K.conc(v)           # a text literal is true unless it is empty
+        return bool(x) if isinstance(x, str) else None
     p = fn_parts(v)
     if p is None:
         return None
@@ -1936,6 +1939,7 @@ class Walker:
         self.guard = ()
         self.returns = []         # (value, guard, node) of the walked function itself
         self._ret_stack = [self.returns]
+        self._try_depth = 0       # open `try` bodies (a raise inside one may be caught: it is not the end of the function)
         self._breaks = []         # per open loop: environments at its `break` statements
         self.bound = {}           # id(followed FunctionDef) -> {parameter: value} of its (last) call
         self.spans = {}           # id(followed FunctionDef) -> (frame id, loops of that frame before the call, after the call)
@@ -2156,7 +2160,11 @@ class Walker:
                     self.assign(it.optional_vars, v, st)
             return self.run(st.body)
         if isinstance(st, ast.Try):
-            r = self.run(st.body)
+            self._try_depth += 1
+            try:
+                r = self.run(st.body)
+            finally:
+                self._try_depth -= 1
             for h in st.handlers:
                 if h.name:
                     ev.env[h.name] = F.sym("exception:" + h.name)
@@ -2176,6 +2184,9 @@ class Walker:
             return "return"
         if isinstance(st, ast.Raise):
             self.frame.items.append(("exit", "raise"))
+            if self.depth > 0 and not self._try_depth:
+                # a followed callee that raises here returns nothing: the code after the call runs only on the paths that return
+                self._ret_stack[-1].append((NEVER, self.guard, st))
             return "raise"
         if isinstance(st, ast.Break):
             self.frame.items.append(("exit", "break"))
@@ -2786,12 +2797,14 @@ class Walker:
         params = [x.arg for x in a.posonlyargs + a.args]
         if params and params[0] in ("self", "cls") and not local:
             params = params[1:]
-        if a.vararg or a.kwarg or a.kwonlyargs or any(isinstance(x, ast.Starred) for x in it_.args) or any(k.arg is None for k in it_.keywords) \
-                or len(it_.args) > len(params):
+        if a.vararg or a.kwonlyargs or any(isinstance(x, ast.Starred) for x in it_.args) or any(k.arg is None for k in it_.keywords) \
+                or len(it_.args) > len(params) or (a.kwarg is None and any(k.arg not in params for k in it_.keywords)):
             raise Stuck(f"call of the generator {name} with a signature that cannot be bound ({where})")
         self._ngen = getattr(self, "_ngen", 0) + 1
         tag = f"@gen{self._ngen}"
         local = set(params)
+        if a.kwarg is not None:
+            local.add(a.kwarg.arg)
         for n in own:
             if isinstance(n, ast.Name) and isinstance(n.ctx, ast.Store):
                 local.add(n.id)
@@ -2847,6 +2860,11 @@ class Walker:
             if v is None:
                 raise Stuck(f"call of the generator {name}: parameter {p_} not bound ({where})")
             pre.append(ast.Assign(targets=[ast.Name(id=p_ + tag, ctx=ast.Store())], value=v))
+        if a.kwarg is not None:
+            # `**kwargs`: the keywords that are not parameters, as the literal table they form
+            more = [k for k in it_.keywords if k.arg not in params]
+            pre.append(ast.Assign(targets=[ast.Name(id=a.kwarg.arg + tag, ctx=ast.Store())],
+                                  value=ast.Dict(keys=[ast.Constant(value=k.arg) for k in more], values=[k.value for k in more])))
         out = pre + body
         for s_ in out:
             for x in ast.walk(s_):
@@ -3128,6 +3146,11 @@ class Walker:
         for k in node.keywords:
             if k.arg is not None:
                 kws[k.arg] = ev.ev(k.value)
+            else:
+                # `**table`: a literal table of keyword arguments is spread over the parameters
+                v = ev.ev(k.value)
+                if isinstance(v, DictValue) and all(isinstance(x, str) for x in v.d):
+                    kws.update(v.d)
         return pos, kws
 
     def _bound_method(self, v):
@@ -3594,7 +3617,11 @@ class Walker:
         if not rets:
             return F.sym("None")
         # several returns: the value is selected by the guards under which they are reached
-        return _return_value([(list(g[len(g0):]), v) for v, g, _st in rets], name)
+        out = _return_value([(list(g[len(g0):]), v) for v, g, _st in rets], name)
+        return F.sym("None") if out is NEVER else out
+
+
+NEVER = Unknown("the function raises on this path (no value)")
 
 
 def _return_value(lst, name, depth=0):
@@ -3614,7 +3641,11 @@ def _return_value(lst, name, depth=0):
         else:
             yes.append((gg, vv))
             no.append((gg, vv))
-    return phi(c, _return_value(yes, name, depth + 1), _return_value(no, name, depth + 1))
+    a, b = _return_value(yes, name, depth + 1), _return_value(no, name, depth + 1)
+    # an arm that raises yields no value: whatever runs after the call sees the value of the arm that returns
+    if a is NEVER or b is NEVER:
+        return b if a is NEVER else a
+    return phi(c, a, b)
 
 
 def class_lineage(ctx, rel, cls):
